@@ -76,6 +76,21 @@ func setForms(c *EvalCase, form string) *EvalCase {
 	return n
 }
 
+// setMixedForms gives every item of a case its own form: a preprocessed flag over plain segments,
+// a plain flag whose prerequisites are preprocessed, and so on.
+func setMixedForms(c *EvalCase, r *rng, forms []string, tag string) *EvalCase {
+	n := cloneCase(c)
+	n.Flag.Form = pick(r, forms)
+	for i := range n.Store.Flags {
+		n.Store.Flags[i].Form = pick(r, forms)
+	}
+	for i := range n.Store.Segments {
+		n.Store.Segments[i].Form = pick(r, forms)
+	}
+	n.ID = c.ID + "#" + tag
+	return n
+}
+
 func sanitizeCase(c *EvalCase) {
 	sanitizeFlag(&c.Flag)
 	for i := range c.Store.Flags {
@@ -107,18 +122,29 @@ func checkC14(seed uint64, replayDir, corpusDir string) (map[string]any, int) {
 			default:
 				c = genStream(pick(r, []string{"wellformed", "segments", "targets", "bigseg", "prereqs", "bucketdense"}), r, fmt.Sprintf("C14/%d/%d", seed, i))
 			}
+			// the configuration as generated — malformed references, out-of-range integers and all —
+			// in the two hand-built forms, which need not be expressible in JSON or by the builders,
+			// and with the forms mixed between the items of the case
+			raw := cloneCase(c)
+			rawG := []*EvalCase{setForms(raw, "plain"), setForms(raw, "pre"),
+				setMixedForms(raw, r, []string{"plain", "pre"}, "mixed-1"), setMixedForms(raw, r, []string{"plain", "pre"}, "mixed-2")}
 			sanitizeCase(c)
 			g := []*EvalCase{}
 			for _, f := range forms {
 				g = append(g, setForms(c, f))
 			}
-			groups = append(groups, g)
+			g = append(g, setMixedForms(c, r, forms, "mixed"))
+			groups = append(groups, g, rawG)
 		}
 		for _, outs := range runVariants(groups) {
 			okAll := true
+			formOf := func(k int) string {
+				id := outs[k].c.ID
+				return id[strings.LastIndex(id, "#")+1:]
+			}
 			for k := range outs {
 				t.evaluations++
-				t.counts["form/"+forms[k]]++
+				t.counts["form/"+formOf(k)]++
 				if !modelAgreement(t, "forms", &outs[k]) {
 					okAll = false
 				}
@@ -129,7 +155,7 @@ func checkC14(seed uint64, replayDir, corpusDir string) (map[string]any, int) {
 			ref := canon(full(outs[0].c.Go))
 			for k := 1; k < len(outs); k++ {
 				if canon(full(outs[k].c.Go)) != ref {
-					t.violation("forms", "the same configuration evaluates differently in form "+forms[0]+" and form "+forms[k],
+					t.violation("forms", "the same configuration evaluates differently in form "+formOf(0)+" and form "+formOf(k),
 						map[string]any{"case": outs[0].c, "other": outs[k].c, "go": json.RawMessage(ref), "model_out": json.RawMessage(canon(full(outs[k].c.Go)))})
 					break
 				}
@@ -157,7 +183,16 @@ func hasKindClause(c *EvalCase) bool {
 	chk := func(cs []WClause) bool {
 		for _, cl := range cs {
 			if cl.Attr.R == "kind" || cl.Attr.R == "/kind" || cl.Attr.S == "kind" {
-				return true
+				// a plain `kind in [...]` that does not list the added kind cannot start to match
+				// because of it; anything else (negation, other operators) might
+				if cl.Op != "in" || cl.Neg {
+					return true
+				}
+				for _, v := range cl.Vals {
+					if v.K != 's' || v.S == "zzkind" {
+						return true
+					}
+				}
 			}
 		}
 		return false
@@ -287,6 +322,33 @@ var perturbations = []perturbation{
 		}
 		return n, true
 	}, sameFull},
+	{"metadata-store-reported", func(r *rng, c *EvalCase) (*EvalCase, bool) {
+		// version, trackEvents and excludeFromSummaries of the flags reached through the store: the
+		// version and the exclusion setting are copied into the prerequisite event and nowhere else
+		if len(c.Store.Flags) == 0 {
+			return nil, false
+		}
+		n := cloneCase(c)
+		for i := range n.Store.Flags {
+			n.Store.Flags[i].Meta.Version += 1 + r.intn(5)
+			n.Store.Flags[i].Meta.Track = !n.Store.Flags[i].Meta.Track
+			n.Store.Flags[i].Excl = !n.Store.Flags[i].Excl
+		}
+		return n, true
+	}, func(a, b *WObs, ac, bc *EvalCase) string {
+		blank := func(o *WObs) *WObs {
+			cp := *o
+			cp.Events = append([]WEvent{}, o.Events...)
+			for i := range cp.Events {
+				cp.Events[i].Version, cp.Events[i].Excl = 0, false
+			}
+			return &cp
+		}
+		if canon(full(blank(a))) != canon(full(blank(b))) {
+			return "observable behaviour changed beyond the version and excludeFromSummaries fields of the prerequisite events"
+		}
+		return ""
+	}},
 	{"reorder-clause-values", func(r *rng, c *EvalCase) (*EvalCase, bool) {
 		n := cloneCase(c)
 		changed := false
@@ -510,7 +572,7 @@ func checkC20(seed uint64, replayDir, corpusDir string) (map[string]any, int) {
 		}
 	}
 	nv := reportUnitDisagreements("C20", t.dis, replayDir)
-	return t.frag("(configuration, context) pairs x nine perturbation families (unreferenced attribute, unreferenced kind, metadata of the evaluated flag, metadata of stored flags and segments, value/key order in the evaluated flag and in stored flags and segments, clause order, appended rule, inserted never-matching rule): relation evaluated on the real code's full observable behaviour (oracle-free), model agreement on both sides; non-trivial = distinct perturbed cases on which the relation was evaluated", nil), nv
+	return t.frag("(configuration, context) pairs x ten perturbation families (unreferenced attribute, unreferenced kind, metadata of the evaluated flag, metadata of stored flags and segments, reported metadata of stored flags modulo the event fields that carry it, value/key order in the evaluated flag and in stored flags and segments, clause order, appended rule, inserted never-matching rule): relation evaluated on the real code's full observable behaviour (oracle-free), model agreement on both sides; non-trivial = distinct perturbed cases on which the relation was evaluated", nil), nv
 }
 
 func onlyBSSDiffers(a, b *WObs) bool {
@@ -654,7 +716,7 @@ func checkC12(seed uint64, replayDir, corpusDir string) (map[string]any, int) {
 					t.distinct[caseHash(c)] = true
 				}
 			}()
-			if h%10 == 0 && s == steps-1 {
+			{
 				mc := cloneCase(c)
 				mc.ID = c.ID + "#model"
 				modelCases = append(modelCases, mc)
@@ -663,7 +725,7 @@ func checkC12(seed uint64, replayDir, corpusDir string) (map[string]any, int) {
 		t.sample(map[string]any{"history_length": steps, "options": opts, "last_case_id": prev.ID})
 	}
 	// the stateless model answers each call of a history like the real (history-laden) evaluator:
-	// spot-check the last call of every 10th history through the ordinary pipeline
+	// every call of every history also goes through the ordinary pipeline
 	for _, o := range runEvalBatch(modelCases) {
 		oc := o
 		t.evaluations++
